@@ -60,6 +60,9 @@ func CheckRegistryTrace(calls []RegCall) []Violation {
 			if len(s.facSeen) != 0 {
 				s.facSeen[len(s.facSeen)-1] = true
 			}
+			if s.creating > 0 {
+				add("created-again-while-in-creation", c.Name, fmt.Sprintf("get-or-create ran the factory of %q although a creation of %q is under way: one singleton goes through creation twice and is published twice", c.Name, c.Name), idx)
+			}
 			s.creating++
 			if s.creating == 1 {
 				s.early, s.ef, s.failed, s.hasF, s.pubInAtt = 0, 0, false, false, false
